@@ -143,6 +143,10 @@ GetAllOK(r) ==
     /\ Len(r) = N
     /\ \A i \in 0..(N - 1) : r[i + 1] = Get(i)
 GetAll(r) == GetAllOK(r) /\ UNCHANGED vec
+GetAtOK(at, r) ==
+    /\ Len(r) = Len(at)
+    /\ \A j \in 1..Len(at) : at[j] \in 0..(N - 1) /\ r[j] = Get(at[j])
+GetAt(at, r) == GetAtOK(at, r) /\ UNCHANGED vec
 (* len / count_ones / count_zeros are exact *)
 CountsOK(len, ones, zeros) == len = N /\ ones = Ones /\ zeros = Zeros
 Counts(len, ones, zeros) == CountsOK(len, ones, zeros) /\ UNCHANGED vec
